@@ -406,7 +406,7 @@ package iso7816
 //@   safety all
 
 //@ func (sm *SecureMessaging) generateMac
-//@   props C03 C10
+//@   props C03 C10 C06 C04 C14
 //@   requires validSM(sm)
 //@   ensures "session-mac": err == nil ==> mac === smMacS(sm.alg, canonKey(sm.alg, sm.ksMac), data) && len(mac) == 8
 //@   ensures "aes-never-fails": sm.alg == 2 ==> err == nil
@@ -431,7 +431,7 @@ package iso7816
 //@   safety all
 
 //@ func generateMacDataForSmRApduTlv
-//@   props C03
+//@   props C03 C06 C04 C14
 //@   requires smRApduTlv != nil
 //@   ensures "mac-input": result === cat(ssc, doEnc(smRApduTlv.src, 133), doEnc(smRApduTlv.src, 135), doEnc(smRApduTlv.src, 153))
 //@   ensures fresh(result)
@@ -439,7 +439,7 @@ package iso7816
 //@   safety all
 
 //@ func (sm *SecureMessaging) decodeVerifyMAC
-//@   props C03
+//@   props C03 C06 C04 C14
 //@   requires validSM(sm) && tlv != nil
 //@   ensures "mac-verified": result == nil ==> doVal(tlv.src, 142) === smMacS(sm.alg, canonKey(sm.alg, sm.ksMac),
 //@        pad2S(cat(sm.ssc, doEnc(tlv.src, 133), doEnc(tlv.src, 135), doEnc(tlv.src, 153)), bsOf(sm.alg)))
@@ -461,7 +461,7 @@ package iso7816
 // status; data is the unpadded decryption of DO'85'/'87' (indicator 01). The spec functions doEnc/doVal/doPresent
 // read the data objects of the received bytes (all but the two status octets).
 //@ func (sm *SecureMessaging) Decode
-//@   props C03 C10 C11
+//@   props C03 C10 C11 C06 C04 C14
 //@   requires validSM(sm)
 //@   ensures "counter-advances-on-protected-response": len(rApduBytes) > 2 ==>
 //@        (old(beS(sm.ssc)) + 1 < pow256(len(sm.ssc)) ==> beS(sm.ssc) == old(beS(sm.ssc)) + 1) && (old(beS(sm.ssc)) + 1 >= pow256(len(sm.ssc)) ==> beS(sm.ssc) == 0)
